@@ -7,6 +7,7 @@ rules.  Organisation: (1) sorted sets/maps, `sorted_by_key`, `Outcome.collect`; 
 (5) the first loop of `Schema::new`; (6) translation of the look-up rules into `ValidSchema`.
 -/
 import TrustfallModel.Model.SchemaDoc
+set_option linter.unusedSimpArgs false
 namespace TF.SchemaDoc
 
 /-! ### Sets and maps -/
